@@ -79,37 +79,37 @@ Open Scope list_scope.
    attributes of ANY cursor state, with any argument, yields exactly the attributes and the result that Model/Cursor.v
    (over which every theorem above is stated) computes.  [flds c] is the object's attribute dictionary:
    _rows (None before execute), _pos, _rowcount, arraysize. *)
-Theorem C10_source_fetchone : forall (call_ref : nat -> list pv -> pv) (c : cur pv),
-  call_method call_ref cursor_fetchone (flds c) [] =
+Theorem C10_source_fetchone : forall (call_ref : nat -> list pv -> pv) (prim : string -> list pv -> PyMini.res pv) (c : cur pv),
+  call_method call_ref prim cursor_fetchone (flds c) [] =
   Ok (flds (fst (fetchone pv c)), res_pv (snd (fetchone pv c))).
 Proof. exact fetchone_src. Qed.
 Print Assumptions C10_source_fetchone.
 
-Theorem C10_source_fetchmany : forall (call_ref : nat -> list pv -> pv) (c : cur pv) (size : option Z),
-  call_method call_ref cursor_fetchmany (flds c) [match size with None => PNone | Some n => PInt n end] =
+Theorem C10_source_fetchmany : forall (call_ref : nat -> list pv -> pv) (prim : string -> list pv -> PyMini.res pv) (c : cur pv) (size : option Z),
+  call_method call_ref prim cursor_fetchmany (flds c) [match size with None => PNone | Some n => PInt n end] =
   Ok (flds (fst (fetchmany pv c size)), res_pv (snd (fetchmany pv c size))).
 Proof. exact fetchmany_src. Qed.
 Print Assumptions C10_source_fetchmany.
 
-Theorem C10_source_fetchall : forall (call_ref : nat -> list pv -> pv) (c : cur pv),
-  call_method call_ref cursor_fetchall (flds c) [] =
+Theorem C10_source_fetchall : forall (call_ref : nat -> list pv -> pv) (prim : string -> list pv -> PyMini.res pv) (c : cur pv),
+  call_method call_ref prim cursor_fetchall (flds c) [] =
   Ok (flds (fst (fetchall pv c)), res_pv (snd (fetchall pv c))).
 Proof. exact fetchall_src. Qed.
 Print Assumptions C10_source_fetchall.
 
-Theorem C10_source_rowcount : forall (call_ref : nat -> list pv -> pv) (c : cur pv),
-  call_method call_ref cursor_rowcount (flds c) [] = Ok (flds c, PInt (count pv c)).
+Theorem C10_source_rowcount : forall (call_ref : nat -> list pv -> pv) (prim : string -> list pv -> PyMini.res pv) (c : cur pv),
+  call_method call_ref prim cursor_rowcount (flds c) [] = Ok (flds c, PInt (count pv c)).
 Proof. exact rowcount_src. Qed.
 Print Assumptions C10_source_rowcount.
 
-Theorem C10_source_rownumber : forall (call_ref : nat -> list pv -> pv) (c : cur pv),
-  call_method call_ref cursor_rownumber (flds c) [] = Ok (flds c, PInt (pos pv c)).
+Theorem C10_source_rownumber : forall (call_ref : nat -> list pv -> pv) (prim : string -> list pv -> PyMini.res pv) (c : cur pv),
+  call_method call_ref prim cursor_rownumber (flds c) [] = Ok (flds c, PInt (pos pv c)).
 Proof. exact rownumber_src. Qed.
 Print Assumptions C10_source_rownumber.
 
 (* Non-vacuity of the tie: the translated fetchmany run on a concrete cursor object. *)
 Example C10_source_example :
-  call_method (fun _ _ => PNone) cursor_fetchmany
+  call_method (fun _ _ => PNone) (fun _ _ => Stuck) cursor_fetchmany
     [("_rows", PList [PInt 10; PInt 20; PInt 30]); ("_pos", PInt 1); ("_rowcount", PInt 4); ("arraysize", PInt 1)]%string
     [PInt 2]
   = Ok ([("_rows", PList [PInt 30]); ("_pos", PInt 3); ("_rowcount", PInt 4); ("arraysize", PInt 1)]%string,
